@@ -13,7 +13,7 @@ if ! cargo build --offline -q 2>/verif/target/build.$id.log; then
   exit 2
 fi
 case "$id" in
-  C04|C05|C07|C08|C14|C15|C18)
+  C04|C07|C08|C15|C18)
     if ! cargo build --offline -q --manifest-path /repo/Cargo.toml --bin qmluic --target-dir /verif/target/cli 2>/verif/target/build.cli.$id.log; then
       cat /verif/target/build.cli.$id.log >&2
       echo "[run.sh] qmluic CLI build failed (infrastructure, not a verdict)" >&2
